@@ -89,6 +89,8 @@ func (m *DefaultInterfaceMocker) Apply(callback interface{}) {
 	if m.method == "" {
 		panic("method is empty")
 	}
+	// Apply 会覆盖之前设定的 When 条件和 Return: 丢弃旧的 when, 之后的 When/Return 会重新创建并应用
+	m.when = nil
 	m.applyByIFaceMethod(m.ctx, m.iFace, m.method, callback, nil)
 }
 
